@@ -1,0 +1,43 @@
+//go:build verif
+
+package mempool
+
+// Add-only accessors for the verification harness (/verif, property C21,
+// delayed-transaction cache). Compiled only with -tags verif; no behaviour of
+// the package changes.
+
+import (
+	"github.com/33cn/chain33/queue"
+	"github.com/33cn/chain33/types"
+)
+
+// VerifEventAddDelayTx runs the EventAddDelayTx handler on a message; the reply
+// is delivered on the message's reply channel.
+func (mem *Mempool) VerifEventAddDelayTx(msg *queue.Message) { mem.eventAddDelayTx(msg) }
+
+// VerifDelayContains is delayTxCache.contains.
+func (mem *Mempool) VerifDelayContains(hash []byte) (int64, bool) {
+	return mem.cache.delayCache.contains(hash)
+}
+
+// VerifDelayLen is len(delayTxCache.hashCache).
+func (mem *Mempool) VerifDelayLen() int {
+	c := mem.cache.delayCache
+	c.lock.RLock()
+	defer c.lock.RUnlock()
+	return len(c.hashCache)
+}
+
+// VerifDrainDelayTxs takes, without blocking, the lists that pushExpiredDelayTx
+// queued for pushDelayTxRoutine (the routine is not running in the harness).
+func (mem *Mempool) VerifDrainDelayTxs() [][]*types.Transaction {
+	var out [][]*types.Transaction
+	for {
+		select {
+		case l := <-mem.delayTxListChan:
+			out = append(out, l)
+		default:
+			return out
+		}
+	}
+}
